@@ -26,6 +26,12 @@ func setupC18(x *Ctx) {
 	x.SigAdd("kind="+kind, fmt.Sprintf("lat=%v", lat))
 	x.SetSample(map[string]any{"kind": kind, "latency": lat.String()})
 
+	// what B's application does inside the delayed pairing notifications
+	appB := "returns-at-once"
+	if x.Feat(FeatAppInCallback) {
+		appB = PickB(x, "app-in-callback", 0.5, []string{"returns-at-once", "slow", "approves-in-callback"})
+	}
+	x.SigAdd("appB=" + appB)
 	// A always registers B (and dials); what B does depends on the scenario
 	x.Go("A:start", func() {
 		a.create()
@@ -38,6 +44,20 @@ func setupC18(x *Ctx) {
 	})
 	x.Go("B:start", func() {
 		b.create()
+		switch appB {
+		case "slow":
+			b.app.inPairingCB = func(string, int) { simrt.Sleep(400 * time.Millisecond) }
+		case "approves-in-callback":
+			approved := false
+			b.app.inPairingCB = func(ski string, state int) {
+				if state == 3 && !approved { // received pairing request
+					approved = true
+					x.Probe("approved-inside-notification")
+					b.hub.RegisterRemoteSKI(ski)
+					simrt.Sleep(400 * time.Millisecond) // ... and stores the decision
+				}
+			}
+		}
 		simrt.Recv("a", a.ready)
 		switch kind {
 		case "success", "ship-id-mismatch", "cut", "success-disconnect":
@@ -90,6 +110,13 @@ func setupC18(x *Ctx) {
 		case "pending-approve":
 			b.on("op", func() { b.hub.RegisterRemoteSKI(a.ski) })
 		case "pending-cancel":
+			done := 0
+			for _, e := range x.Events() {
+				if e.Kind == "app-setup" && e.A == "B" {
+					done = 1 // B's application approved from inside the notification: nothing is pending
+				}
+			}
+			x.Ev("op-cancel", "B", a.ski, done)
 			b.on("op", func() { b.hub.CancelPairingWithSKI(a.ski) })
 		case "success-disconnect":
 			a.on("op", func() { a.hub.DisconnectSKI(b.ski, "bye") })
@@ -172,6 +199,14 @@ func checkPairingNotifications(x *Ctx, r *hubRig, phase string) bool {
 				discr := "produced-at-different-instants"
 				if lastKind[k] == "delayed" && prodAt[lastSeq[k]] == prodAt[newest[k]] {
 					discr = "produced-at-the-same-instant"
+				}
+				if lastKind[k] == "direct" && last[k] == 0 && cur == 7 {
+					for _, e := range x.Events() {
+						if e.Kind == "op-cancel" && e.A == n.name && e.B == m.ski && e.N == 1 {
+							// CancelPairingWithSKI on a connection that is already completed
+							discr = "cancel-on-completed-connection"
+						}
+					}
 				}
 				x.Violate("last-notification-stale", discr, fmt.Sprintf("%s phase: the last ServicePairingDetailUpdate hub %s delivered for %s shows state %d, PairingDetailForSki says %d (%d notifications)", phase, n.name, m.name, last[k], cur, count[k]))
 				bad = true
